@@ -1,62 +1,51 @@
 (* C10 — Decoding untrusted bytes is memory-safe, terminating and fails cleanly.
    Public statements only; models in model/C10_Base.v, C10_DecodeSafeCy.v (compiled readers over
-   an instrumented memory), C10_DecodeSafePy.v (pure-Python readers); proofs in proof/C10_*.v.
+   an instrumented memory), C10_DecodeSafePy.v (pure-Python readers), C10_Run.v (entry point of the
+   correspondence); proofs in proof/C10_*.v.
 
    The models take a vector [fixes] of booleans, one per repaired site.  [fx_current] (all false) is
    the code of the pinned tree, [fx_repaired] (all true) the code with every patch of
    seeded/_proposed_fixes/C10-*.diff applied.  The universal theorems are proved for fx_repaired;
    for fx_current they are REFUTED by concrete witnesses (which harness/c10.py replays on the real
-   extension under AddressSanitizer).  harness/c10.py evaluates BOTH variants on every input and
-   accepts the real code only if it behaves like one of them, so it tells which variant the tree is.
+   extension under AddressSanitizer, corpus/C10).  harness/c10.py evaluates BOTH variants on every
+   input and accepts the real code only if it behaves like one of them, so the run tells which
+   variant the tree is, site by site.
+
+   Outcome of a run: (records delivered, status); status = SDone | SFail f with
+   f = FRaise exception-class | FOOB site space pos n len (instrumented read outside the buffer)
+     | FFuel site (a loop exceeded its fuel, a function of the input length: non-termination)
+     | FInternal site e (SystemError / MemoryError / OverflowError out of C-API internals).
+   [ok_status st] := st is SDone or SFail (FRaise _).
 
    The compression codec is abstract: an arbitrary function [dec].  Hypotheses of the compiled
-   theorems: the buffer, and every codec output, is shorter than 2^47 bytes ([small]: no allocation
-   of that size can exist; needed only to exclude MemoryError when copying a key/value of a checked
-   size).  The Python theorems have no hypothesis. *)
+   theorems: the buffer, and every codec output, is shorter than 2^47 bytes ([small], [dec_small]: no
+   allocation of that size can exist; needed only to exclude MemoryError when copying a key/value
+   whose size has been checked against the buffer).  The Python theorems have no hypothesis. *)
 From Coq Require Import ZArith List Bool String.
 From Verif Require Import C10_Base C10_DecodeSafeCy C10_DecodeSafePy C10_Run C10_wp C10_cy_proof C10_py_proof
-                          C10_crc_proof C10_refute.
+                          C10_crc_proof C10_refute C10_public.
 Import ListNotations.
 Open Scope Z_scope.
 Open Scope string_scope.
-
-(* the full statement for a given state of the code: every run of the driver
-   (MemoryRecords -> batches -> [validate_crc] -> records) over ANY byte list ends with all records
-   delivered or an ordinary Python exception — no out-of-bounds read, no non-termination, no
-   SystemError / MemoryError / OverflowError from C-API internals *)
-Definition C10_cy_safe (fx : fixes) : Prop :=
-  forall crc32c crc32 dec validate buf, dec_small dec -> small buf ->
-    ok_status (snd (cy_decode crc32c crc32 dec fx validate buf)).
-Definition C10_py_safe (fx : fixes) : Prop :=
-  forall crc32c crc32 dec validate buf,
-    ok_status (snd (py_decode crc32c crc32 dec fx validate buf)).
 
 (* ---------------------------------------------------------------- repaired compiled readers *)
 Theorem c10_cy_no_oob : forall crc32c crc32 dec validate buf, dec_small dec -> small buf ->
   forall site space pos n len,
     snd (cy_decode crc32c crc32 dec fx_repaired validate buf) <> SFail (FOOB site space pos n len).
-Proof.
-  intros until buf. intros Hd Hs site space pos n len E.
-  pose proof (cy_decode_ok crc32c crc32 dec validate buf Hd Hs) as H. rewrite E in H. exact H.
-Qed.
+Proof. exact cy_no_oob. Qed.
 Print Assumptions c10_cy_no_oob.
 
 Theorem c10_cy_terminates : forall crc32c crc32 dec validate buf, dec_small dec -> small buf ->
   forall site, snd (cy_decode crc32c crc32 dec fx_repaired validate buf) <> SFail (FFuel site).
-Proof.
-  intros until buf. intros Hd Hs site E.
-  pose proof (cy_decode_ok crc32c crc32 dec validate buf Hd Hs) as H. rewrite E in H. exact H.
-Qed.
+Proof. exact cy_terminates. Qed.
 Print Assumptions c10_cy_terminates.
 
 Theorem c10_cy_clean : forall crc32c crc32 dec validate buf, dec_small dec -> small buf ->
   forall site e, snd (cy_decode crc32c crc32 dec fx_repaired validate buf) <> SFail (FInternal site e).
-Proof.
-  intros until buf. intros Hd Hs site e E.
-  pose proof (cy_decode_ok crc32c crc32 dec validate buf Hd Hs) as H. rewrite E in H. exact H.
-Qed.
+Proof. exact cy_clean. Qed.
 Print Assumptions c10_cy_clean.
 
+(* the three together, in the form the full statement is written (C10_public.C10_cy_safe) *)
 Theorem c10_cy_safe : C10_cy_safe fx_repaired.
 Proof. exact cy_decode_ok. Qed.
 Print Assumptions c10_cy_safe.
@@ -76,19 +65,13 @@ Print Assumptions c10_cy_legacy_batch_safe.
 (* ---------------------------------------------------------------- repaired pure-Python readers *)
 Theorem c10_py_terminates : forall crc32c crc32 dec validate buf site,
   snd (py_decode crc32c crc32 dec fx_repaired validate buf) <> SFail (FFuel site).
-Proof.
-  intros until site. intros E.
-  pose proof (py_decode_ok crc32c crc32 dec validate buf) as H. rewrite E in H. exact H.
-Qed.
+Proof. exact py_terminates. Qed.
 Print Assumptions c10_py_terminates.
 
 Theorem c10_py_clean : forall crc32c crc32 dec validate buf,
   (forall site e, snd (py_decode crc32c crc32 dec fx_repaired validate buf) <> SFail (FInternal site e))
   /\ (forall site sp p n l, snd (py_decode crc32c crc32 dec fx_repaired validate buf) <> SFail (FOOB site sp p n l)).
-Proof.
-  intros. pose proof (py_decode_ok crc32c crc32 dec validate buf) as H.
-  split; intros; intro E; rewrite E in H; exact H.
-Qed.
+Proof. exact py_clean. Qed.
 Print Assumptions c10_py_clean.
 
 Theorem c10_py_safe : C10_py_safe fx_repaired.
@@ -98,7 +81,7 @@ Print Assumptions c10_py_safe.
 Theorem c10_py_batches_safe : forall crc32c crc32 dec validate magic buf,
   ok_status (snd (py_v2_run crc32c dec validate buf))
   /\ ok_status (snd (py_l_run crc32 dec fx_repaired validate magic buf)).
-Proof. intros. split; [apply py_v2_run_ok|apply py_l_run_ok]. Qed.
+Proof. exact py_batches_safe. Qed.
 Print Assumptions c10_py_batches_safe.
 
 (* ---------------------------------------------------------------- checksum *)
@@ -120,10 +103,7 @@ Theorem c10_crc_detects :
   /\ (forall crc32 dec f magic buf h,
      py_l_new magic buf = Ok h -> l_crc_field buf <> crc32 (l_crc_content buf) ->
      py_l_run crc32 dec f true magic buf = ([], SFail (FRaise Corrupt))).
-Proof.
-  split; [exact cy_v2_crc_detects|]. split; [exact cy_l_crc_detects|].
-  split; [exact py_v2_crc_detects|exact py_l_crc_detects].
-Qed.
+Proof. exact crc_detects. Qed.
 Print Assumptions c10_crc_detects.
 
 (* ---------------------------------------------------------------- the pinned tree: refuted *)
@@ -135,16 +115,13 @@ Theorem c10_cy_no_oob_current_refuted :
     /\ snd (cy_decode crc32c crc32 d1 fx_current false b3) = SFail (FOOB "legacy_records._read_record" 0 26 4 26)
     /\ snd (cy_decode crc32c crc32 d2 fx_current false b4) = SFail (FOOB "legacy_records._read_last_offset" 1 8 4 5)
     /\ snd (cy_decode crc32c crc32 d3 fx_current false b4) = SFail (FOOB "legacy_records._read_last_offset" 1 (-12) 8 0).
-Proof.
-  exists C, C2, D0, D5, DE, w_hdr, w_varint, w_vlen, w_wrap.
-  rewrite w_hdr_cur, w_varint_cur, w_vlen_cur, w_last5_cur, w_last0_cur. repeat split.
-Qed.
+Proof. exact cy_no_oob_current_refuted. Qed.
 Print Assumptions c10_cy_no_oob_current_refuted.
 
 Theorem c10_cy_terminates_current_refuted :
   exists crc32c crc32 dec buf,
     snd (cy_decode crc32c crc32 dec fx_current false buf) = SFail (FFuel "legacy_records._read_last_offset").
-Proof. exists C, C2, DH, w_wrap. rewrite w_hang_cy_cur. reflexivity. Qed.
+Proof. exact cy_terminates_current_refuted. Qed.
 Print Assumptions c10_cy_terminates_current_refuted.
 
 Theorem c10_cy_clean_current_refuted :
@@ -152,26 +129,17 @@ Theorem c10_cy_clean_current_refuted :
     snd (cy_decode crc32c crc32 dec fx_current false b1) = SFail (FInternal "legacy_records._read_record" "SystemError")
     /\ snd (cy_decode crc32c crc32 dec fx_current false b2) = SFail (FInternal "default_records._read_msg" "OverflowError")
     /\ snd (cy_decode crc32c crc32 dec fx_current false b3) = SFail (FInternal "default_records._read_msg" "MemoryError").
-Proof.
-  exists C, C2, D0, w_neg, w_ovf, w_mem. rewrite w_neg_cur, w_ovf_cur, w_mem_cur. repeat split.
-Qed.
+Proof. exact cy_clean_current_refuted. Qed.
 Print Assumptions c10_cy_clean_current_refuted.
 
 Theorem c10_py_terminates_current_refuted :
   exists crc32c crc32 dec buf,
     snd (py_decode crc32c crc32 dec fx_current false buf) = SFail (FFuel "legacy_records.py._read_all_headers").
-Proof. exists C, C2, DH, w_wrap. rewrite w_hang_py_cur. reflexivity. Qed.
+Proof. exact py_terminates_current_refuted. Qed.
 Print Assumptions c10_py_terminates_current_refuted.
 
 Theorem c10_current_unsafe : ~ C10_cy_safe fx_current /\ ~ C10_py_safe fx_current.
-Proof.
-  split; intro H.
-  - specialize (H C C2 D0 false w_hdr).
-    assert (Hd : dec_small D0) by (intros c p out E; discriminate).
-    assert (Hs : small w_hdr) by (vm_compute; reflexivity).
-    specialize (H Hd Hs). rewrite w_hdr_cur in H. exact H.
-  - specialize (H C C2 DH false w_wrap). rewrite w_hang_py_cur in H. exact H.
-Qed.
+Proof. exact current_unsafe. Qed.
 Print Assumptions c10_current_unsafe.
 
 (* each proposed patch is necessary: all flags on except one, and its witness still fails *)
@@ -189,7 +157,8 @@ Print Assumptions c10_each_fix_needed.
 
 (* ---------------------------------------------------------------- non-vacuity *)
 (* the hypotheses are satisfiable and the repaired model does deliver records: a valid one-record
-   v2 batch (built by the real builder; checksum verified) decodes to one record *)
+   v2 batch (built by the real builder; checksum verified) decodes to one record in both models,
+   and the repaired model behaves like the pinned one on it *)
 Definition ex_v2 := of_hex "000000000000000000000042ffffffff02dc0e98b800000000000000000000000003e800000000000003e8ffffffffffffffffffffffffffff0000000120000000026b0a76616c75650202680278".
 Example c10_hyps_satisfiable :
   small ex_v2 /\ dec_small D0
